@@ -500,6 +500,11 @@ class MoneyMeta(QuantityMeta):
             return curr
         else:  # currency already registered
             assert isinstance(reg_curr, Currency)
+            if reg_curr.name != name or \
+                    reg_curr.smallest_fraction != Decimal(10) ** -minor_unit:
+                raise ValueError(f"Symbol '{iso_code}' already used for a "
+                                 "currency which differs from that in the "
+                                 "ISO 4217 database.")
             return reg_curr
 
     def register_converter(cls, conv: ConverterT) -> None:  # noqa: N805
